@@ -40,6 +40,16 @@ def parse_model(txt):
     return model
 
 
+def _child_setup():
+    # own process group (so the whole solver can be killed) and die with the parent (no orphaned solvers burning CPU)
+    os.setsid()
+    try:
+        import ctypes
+        ctypes.CDLL('libc.so.6', use_errno=True).prctl(1, signal.SIGKILL)
+    except Exception:
+        pass
+
+
 def run_query(text, timeout, portfolio=DEFAULT_PORTFOLIO, workdir=None, tag='q'):
     """run the SMT-LIB text on all solvers of the portfolio in parallel; first definite answer wins"""
     res = Result()
@@ -52,7 +62,7 @@ def run_query(text, timeout, portfolio=DEFAULT_PORTFOLIO, workdir=None, tag='q')
     for s in portfolio:
         cmd = list(SOLVERS[s]) + [path]
         try:
-            procs[s] = subprocess.Popen(cmd, stdout=subprocess.PIPE, stderr=subprocess.STDOUT, text=True, preexec_fn=os.setsid)
+            procs[s] = subprocess.Popen(cmd, stdout=subprocess.PIPE, stderr=subprocess.STDOUT, text=True, preexec_fn=_child_setup)
         except FileNotFoundError:
             continue
     outs = {}
